@@ -1112,6 +1112,9 @@ class StdRules:
                 if not elem.endswith('*') and a.get('valueCategory') != 'xvalue':
                     raise Unsupported('push_back(copy) of class object')
                 em.note_call(tag + '_push_back'); return f"{tag}_push_back({objp}, {em.e(a)})"
+            if name == 'back' and not args: return f"({o}.d[{o}.n - 1])"
+            if name == 'front' and not args: return f"({o}.d[0])"
+            if name == 'at' and len(args) == 1: return f"({o}.d[{em.e(args[0])}])"
             if name == 'pop_back':
                 em.note_call(tag + '_pop_back'); return f"{tag}_pop_back({objp})"
             if name == 'clear':
